@@ -263,6 +263,44 @@ def run_shard(desc):
             else:
                 part["inconclusive"].append("ladder %s/%d: %s %s" % (fam, depth, kind_, detail))
                 break
+    elif kind == "execpool":
+        # execute() is total as well: statement programs with every kind of assignment target (incl. lists of names against shorter /
+        # longer / empty right sides), ill-typed operands and registered-name overrides, on populated contexts; only panics / hangs
+        from . import c06
+        g = c06.AsgGen(rnd)
+        tg = gen.TypedGen(rnd, ill=0.3, edge=0.3)
+        steps, texts = [], []
+        for i in range(arg):
+            if rnd.random() < 0.6:
+                t = g.program()
+                vars_ = g.init_ctx()
+            else:
+                t = tg.gen(rnd.choice("ANBSL"), rnd.randint(1, 4))
+                vars_ = tg.ctx_json()
+            if rnd.random() < 0.3:
+                names_ = rnd.sample(c06.VARS, rnd.randint(1, 3))
+                t = ["stmt", [["bin", rnd.choice(gen.SETTER_OPS), ["list", [["ref", v] for v in names_]], ["list", [gen.num_lit(*rnd.choice(gen.NUM_SMALL)) for _ in range(rnd.choice([0, 1, len(names_) - 1, len(names_), len(names_) + 1]))]]], t]]
+            text = ref.Renderer(rnd=rnd).render(t) if not (t[0] == "stmt" and not t[1]) else ""
+            steps.append({"op": "ctx", "id": i, "vars": vars_})
+            steps.append(dict({"op": "exec", "ctx": i, "text": text, "nosnap": True}, **({"via": "execute"} if i % 2 else {})))
+            texts.append(text)
+        recs, events, _ = common.run_batch(steps, wd, "execpool-%d-%s" % (si, profile), profile, timeout=1200)
+        for i, text in enumerate(texts):
+            r = recs[2 * i + 1]
+            if r is None:
+                continue
+            part["evaluations"] += 1
+            C["execpool"] = C.get("execpool", 0) + 1
+            res = r.get("res")
+            if (isinstance(res, dict) and "panic" in res) or "ppanic" in r:
+                part["violations"].append(viol_from_record({"viol": "panic:exec", "input": text, "detail": "%s @ %s" % ((res or {}).get("panic") or r.get("ppanic"), (res or {}).get("loc", ""))}, "execpool"))
+            else:
+                part["classes"].add("execpool:%s" % ("ok" if isinstance(res, dict) and "ok" in res else "err"))
+        for kind_, detail, k in events:
+            if kind_ in ("signal", "hang", "deadlock"):
+                part["violations"].append({"sig": [kind_, "execpool"], "what": "executing `%s`: %s" % (texts[k // 2][:200] if k // 2 < len(texts) else "?", detail), "replay": None})
+            else:
+                part["inconclusive"].append("%s: %s" % (kind_, detail))
     elif kind == "evalcost":
         # programs of modest size whose evaluation (not their nesting depth) could blow up: chains that a careless short-circuit,
         # re-evaluation or copy would make exponential or quadratic. One process per (family, size), 60 s CPU budget each.
@@ -344,6 +382,7 @@ def run(rep, tier):
     rungs = [10, 100, 1000, 3000, 40000] if tier == "quick" else [10, 100, 1000, 3000, 10000, 20000, 40000, 100000, 1000000]
     for fam in FAMILIES:
         shards.append(("ladder", 0, 0, (fam, rungs), "verifdbg"))
+    shards += [("execpool", i, 0, 1500 if tier == "quick" else 40000, "release" if i % 2 else "verifdbg") for i in range(16)]
     for fam in EVAL_FAMILIES:
         for n_ in ([16, 24, 32, 64, 200] if tier == "quick" else [16, 24, 28, 32, 48, 64, 128, 200, 400]):
             shards.append(("evalcost", 0, 0, (fam, n_), "release" if n_ % 16 else "verifdbg"))
